@@ -181,6 +181,72 @@ def run_case(case):
     return info
 
 
+def long_refinement_case(case):
+    """many answer keys on which the solutions disagree, so that the refute-and-resolve route needs about
+    as many satisfiable rounds as there are keys (each model can demote only one or two of them).  The
+    solution set is known in closed form: xs with at most / exactly one true, some xs pinned to false."""
+    from cspuz import Solver
+    from cspuz.constraints import count_true
+
+    n, kind, pinned = case["n"], case["kind"], set(case["pinned"])
+    s = Solver()
+    xs = s.bool_array(n)
+    s.add_answer_key(xs)
+    if kind == "at-most-one":
+        s.ensure(count_true(xs) <= 1)
+    else:
+        s.ensure(count_true(xs) == 1)
+    for j in sorted(pinned):
+        s.ensure(~xs[j])
+    free = [i for i in range(n) if i not in pinned]
+    try:
+        with counted_z3(16 + 2 * n):
+            res = s.solve(backend="z3")
+    except LoopBudget:
+        raise Failure("solve-does-not-terminate", observed="more than %d solver calls" % (16 + 2 * n))
+    except Exception as e:
+        raise Failure("exception|" + repo_frame_sig(e), observed="%s: %s" % (type(e).__name__, str(e)[:200]))
+    want_sat = kind == "at-most-one" or len(free) >= 1
+    if res is not want_sat:
+        raise Failure("solve-return-wrong|loop", observed=res, expected=want_sat)
+    if not want_sat:
+        return dict(rounds=0)
+    for i in range(n):
+        sol = xs[i].sol
+        if i in pinned:
+            want = False
+        elif kind == "exactly-one" and len(free) == 1:
+            want = True
+        else:
+            want = None
+        if want is None and sol is not None:
+            raise Failure("undetermined-key-reported-value|loop|many-rounds", observed=dict(key=i, sol=sol), expected=None)
+        if want is not None and sol is None:
+            raise Failure("determined-key-reported-None|loop|many-rounds", observed=dict(key=i), expected=want)
+        if want is not None and sol is not want:
+            raise Failure("determined-key-wrong-value|loop|many-rounds", observed=dict(key=i, sol=sol), expected=want)
+    return dict(rounds=len(free))
+
+
+def shard_long(arg):
+    from hypothesis import strategies as st
+
+    seed, n_cases = arg
+    stats = Stats()
+    strat = st.builds(
+        lambda n, kind, pins: dict(n=n, kind=kind, pinned=sorted({p % n for p in pins})),
+        st.sampled_from([70, 90, 130, 170]), st.sampled_from(["at-most-one", "exactly-one"]),
+        st.lists(st.integers(0, 10 ** 6), max_size=12))
+
+    def b(case):
+        out = long_refinement_case(case)
+        stats.case(canon=case, nontrivial=out["rounds"] >= 65, classes=["many-refinement-rounds"], sample=case)
+
+    hyp_search(stats, strat, b, seed=seed, max_examples=n_cases, check="c02.many-rounds", rounds=2, shrink=False,
+               round_floor=2)
+    return stats
+
+
 def case_strategy(backends):
     from hypothesis import strategies as st
 
@@ -282,7 +348,9 @@ def run(ctx):
         "order, registered as scalars / list / *args / nested iterables) x backend in {z3, sugar "
         "(refinement loop); sugar_extended, csugar, enigma_csp, cspuz_core (native deduction)}; oracle = "
         "full solution set by brute force. non-trivial = (>=2 models with a decided and an undecided key) "
-        "or no model; distinct by case hash")
+        "or no model; distinct by case hash. Plus a family with 70-200 boolean keys (at most / exactly one "
+        "true, some pinned false; solution set known in closed form) that needs about as many refinement "
+        "rounds as keys, through z3")
     ctx.assumptions = [
         "external solvers are replaced by vlib.fakesolver (a correct solver by construction: brute force "
         "over the parsed text); exactness through the native route is exactness of cspuz' emission+parsing",
@@ -295,8 +363,11 @@ def run(ctx):
         shards = [(ctx.seed * 1000 + i, 3000, be, 15) for i in range(16)]
     for r in pmap(shard, shards):
         ctx.stats.merge(r)
+    for r in pmap(shard_long, [(ctx.seed * 1000 + 300 + i, 2 if ctx.quick() else 12) for i in range(8)]):
+        ctx.stats.merge(r)
     cl = ctx.stats.classes
     tot = max(1, ctx.stats.evaluations)
+    ctx.floor("programs that need more than 64 refinement rounds", cl["many-refinement-rounds"], 6)
     ctx.floor("mixed decided/undecided share", round(cl["mixed-decided-undecided"] / tot, 3), 0.10)
     ctx.floor("integer keys share", round(cl["int-keys"] / tot, 3), 0.15)
     ctx.floor("no-key share", round(cl["no-keys"] / tot, 3), 0.04)
@@ -307,4 +378,7 @@ def run(ctx):
 
 
 def replay(ctx, rep):
+    if rep.get("check") == "c02.many-rounds":
+        long_refinement_case(rep["case"])
+        return
     run_case(rep["case"])
